@@ -102,6 +102,10 @@ class Parser:
             line = line.split("#")[0]
 
         include_pairs = line.split()
+        if len(include_pairs) < 2:
+            raise ParseError(
+                "An INCLUDE directive must be followed by a filename on the same line"
+            )
         if len(include_pairs) > 2:
             log.warning(
                 "Multiple include files have been found on the same line. "
